@@ -119,6 +119,9 @@ class MarkerExpression(SingleMarker):
             ):
                 for _ in range(2 - dot_num):
                     pkg_version += ".0"
+                # the specifier spells the version differently from the atom
+                # now: let the atom derive its own view from the padded text
+                return MarkerExpression(name, pkg_spec.operator, pkg_version)
             return MarkerExpression(
                 name, pkg_spec.operator, pkg_version, _specifier=specifier
             )
